@@ -32,11 +32,15 @@ TYPES = {
 HOLDERS = ["var", "param", "result", "elem", "field", "maplookup"]
 STATES = ["nil", "present"]
 CONSTRUCTS = ["eq_nil", "ne_nil", "nil_eq", "eq_lit", "eq_var", "var_eq", "eq_other", "ne_var",
-              "get", "or_call", "or_lit", "assign_nil", "assign_over"]
+              "get", "or_call", "or_lit", "or_var", "assign_nil", "assign_over"]
 BOOL_RESULT = {"eq_nil", "ne_nil", "nil_eq", "eq_lit", "eq_var", "var_eq", "eq_other", "ne_var", "assign_nil",
                "assign_over"}
-POSITIONS = ["stmt", "print", "if", "while", "opnd_left", "opnd_right"]
-DEPTHS = ["top", "block", "func"]
+# `bare`: the construct is an expression statement, its value unused (a `get x` guard, `(x) or log()`, `a ?= e`)
+POSITIONS = ["stmt", "print", "bare", "if", "while", "opnd_left", "opnd_right"]
+# `escaped`: holder, fallback variable, `?=` target ... are locals of a factory function; the construct sits in a
+# closure RETURNED by the factory and called after the factory's frame is gone (captures are all it has); every
+# captured name is mentioned only inside the construct (apart from the `?=` target, which is printed)
+DEPTHS = ["top", "block", "func", "escaped"]
 FORMS = ["var", "lit"]
 
 CLASS_K = ("raw", ["class K {", "  id: int", "  constructor(self, id: int) { self.id = id }", "}"])
@@ -108,11 +112,13 @@ def build(cell, positions=None):
     pv, ov = present_expr(ty), other_expr(ty)
     init = pv if state == "present" else ("nil",)
     pre = [("print", ("lit", RUN))]
+    pre_vars = []          # value variables: module level, or factory-local at depth `escaped`
     if ty == "class":
-        pre += [CLASS_K, ("decl", "ov1", None, ("new", "K", [("lit", 1)])), ("decl", "ov2", None, ("new", "K", [("lit", 2)]))]
+        pre.append(CLASS_K)
+        pre_vars += [("decl", "ov1", None, ("new", "K", [("lit", 1)])), ("decl", "ov2", None, ("new", "K", [("lit", 2)]))]
     if ty == "list":
-        pre += [("decl", "lv1", "[int...]", ("listlit", [("lit", 1), ("lit", 2)])),
-                ("decl", "lv2", "[int...]", ("listlit", [("lit", 9)]))]
+        pre_vars += [("decl", "lv1", "[int...]", ("listlit", [("lit", 1), ("lit", 2)])),
+                     ("decl", "lv2", "[int...]", ("listlit", [("lit", 9)]))]
     decls = []
     # ---- the holder: declarations + the expression that reads the optional
     if holder == "var":
@@ -145,6 +151,8 @@ def build(cell, positions=None):
         decls.append(("decl", "w1", None, pv))
     if cons == "or_call":
         decls.append(("fn", "fb", [], tt, [("print", ("lit", "fb called")), ("return", ov)]))
+    if cons == "or_var":
+        decls.append(("decl", "fv", tt if ty == "list" else None, ov))
     decls.append(("decl", "t1", None, ("lit", True)))
     is_bool = cons in BOOL_RESULT or ty == "bool"
     value_kind = cons not in BOOL_RESULT
@@ -175,6 +183,8 @@ def build(cell, positions=None):
             e = ("or", ref, ("call", "fb", []))
         elif cons == "or_lit":
             e = ("or", ref, ov)
+        elif cons == "or_var":
+            e = ("or", ref, ("var", "fv"))
         elif cons in ("assign_nil", "assign_over"):
             decls.append(("decl", "a" + i, opt, ("nil",) if cons == "assign_nil" else ov))
             e = ("unwrap", "a" + i, ref)
@@ -195,6 +205,11 @@ def build(cell, positions=None):
             body = [("decl", "r" + i, None, e), ("print", show(("var", "r" + i), ty) if value_kind else ("var", "r" + i))]
         elif pos == "print":
             body = [("print", show(e, ty) if value_kind else e)]
+        elif pos == "bare":
+            # the `if` block in front ends the previous statement: a line that starts with `(` would otherwise be
+            # parsed as a call of whatever the previous line ends with
+            body = [("if", ("var", "t1"), [("print", ("lit", "before bare"))], None), ("expr", e),
+                    ("print", ("lit", "after bare"))]
         elif pos == "if":
             body = [("if", cond, [("print", ("lit", "then"))], [("print", ("lit", "else"))])]
         elif pos == "while":
@@ -227,13 +242,33 @@ def build(cell, positions=None):
             inner = [("block", body)]
         elif depth == "func":
             inner = [("fn", "g" + i, [], None, body), ("callstmt", "g" + i, [])]
+        elif depth == "escaped":
+            inner = None
+            esc_body = body
         else:
             raise ValueError(depth)
-        parts += inner + [("print", ("lit", "end"))] + after        # `after` again, outside the nested scope
+        if inner is not None:
+            parts += inner + [("print", ("lit", "end"))] + after        # `after` again, outside the nested scope
+    if depth == "escaped":
+        if not single:
+            raise ValueError("depth `escaped` is built one position per program")
+        closure = [("fn", "g", [], "int", esc_body + [("return", ("lit", 0))]), ("return", ("var", "g"))]
+        if holder == "param":
+            # the argument is evaluated at module level, so the value variables stay there; `fv`, `w1`, `a`, `fb`
+            # are still locals of the factory
+            pre = pre + pre_vars
+            factory = ("fn", "fp", [("p", opt)], "fn() -> int", decls + closure)
+            made = ("decl", "h", None, ("call", "fp", [init]))
+        else:
+            factory = ("fn", "mkf", [], "fn() -> int", pre_vars + decls + closure)
+            made = ("decl", "h", None, ("call", "mkf", []))
+        # the factory has returned when `h` runs; twice, so that state kept in captures is seen again
+        return pre + [factory, made, ("print", ("lit", "made")), ("callstmt", "h", []), ("callstmt", "h", []),
+                      ("print", ("lit", "end"))]
     if holder == "param":
-        prog = pre + [("fn", "fp", [("p", opt)], None, decls + parts), ("callstmt", "fp", [init])]
+        prog = pre + pre_vars + [("fn", "fp", [("p", opt)], None, decls + parts), ("callstmt", "fp", [init])]
     else:
-        prog = pre + decls + parts
+        prog = pre + pre_vars + decls + parts
     return prog
 
 
@@ -257,7 +292,7 @@ def cell_id(c):
 
 FAMILY = {"eq_nil": "nil_test", "ne_nil": "nil_test", "nil_eq": "nil_test", "eq_lit": "eq_value", "eq_var": "eq_value",
           "var_eq": "eq_value", "eq_other": "eq_value", "ne_var": "eq_value", "get": "get", "or_call": "or",
-          "or_lit": "or", "assign_nil": "unwrap_assign", "assign_over": "unwrap_assign"}
+          "or_lit": "or", "or_var": "or", "assign_nil": "unwrap_assign", "assign_over": "unwrap_assign"}
 # holders by run-time representation of what the construct receives: a named variable, a call result, a
 # pointer into a list / object / map (HeapPrimitive), a literal
 HOLDER_CLASS = {"var": "name", "param": "name", "result": "call", "elem": "pointer", "field": "pointer",
@@ -339,9 +374,11 @@ def work(item):
         res["seed"] = arg
         return res
     exp, _why = applicable(dict(arg, position=POSITIONS[0]))
-    batch = build(arg, POSITIONS)
-    _lines, status = M.Model(or_evaluates_fallback=brk).execute(batch)
     out = {"group": arg, "expect": exp, "runs": 0, "cells": [], "events": {}}
+    status = ("unbatched",)
+    if arg["depth"] != "escaped":
+        batch = build(arg, POSITIONS)
+        _lines, status = M.Model(or_evaluates_fallback=brk).execute(batch)
     if status[0] == "ok":
         res = check_program(batch, brk)
         out["runs"] += 1
@@ -503,8 +540,14 @@ def gen_random(seed):
             if k < 0.3:
                 e, ty = valexpr()
                 out.append(("print", show(e, ty)))
-            elif k < 0.5:
+            elif k < 0.44:
                 out.append(("print", boolexpr(level)))
+            elif k < 0.5:
+                # bare expression statement (value unused): a `get` guard, an `or` with logging fallback, a test
+                e = valexpr()[0] if rng.random() < 0.7 else boolexpr(level)
+                out.append(("if", ("var", "t1"), [("print", ("lit", "bare"))], None))
+                out.append(("expr", e))
+                feats.add("bare_stmt")
             elif k < 0.62 and level < 3:
                 out.append(("if", boolexpr(level), stmts(level + 1, budget), stmts(level + 1, budget) if rng.random() < 0.5 else None))
                 feats.add("if")
@@ -579,7 +622,7 @@ def run(ctx, break_or=False):
         items += [("rand", base + i, break_or) for i in range(6000)]
     results = core.pmap(work, items, chunksize=8)
     cov = {"cells_in_product": n_cells, "cells_skipped_by_table": sum(skipped.values()),
-           "cells_run": n_groups * len(POSITIONS), "programs_batching_6_positions": 0, "agree": 0,
+           "cells_run": n_groups * len(POSITIONS), "programs_batching_all_positions": 0, "agree": 0,
            "agree_compile_time_get_nil": 0, "expected_get_nil_failures": 0,
            "rejected_as_table_says": 0, "rejected_unexpectedly": 0, "random_programs": 0, "random_agree": 0,
            "random_rejected": 0, "skip_reasons": skipped}
@@ -625,7 +668,7 @@ def run(ctx, break_or=False):
         exp = res["expect"]
         out.evaluations += res["runs"]
         if res.get("batched"):
-            cov["programs_batching_6_positions"] += 1
+            cov["programs_batching_all_positions"] += 1
         cov["expected_get_nil_failures"] += res.get("expected_failures", 0)
         for pos, kind, dev, extra in res["cells"]:
             c = dict(g, position=pos)
@@ -675,9 +718,9 @@ def run(ctx, break_or=False):
     out.coverage.update(cov)
     out.exhaustive = not out.inconclusive and cov["rejected_unexpectedly"] == 0
     out.rule = ("catalogue = every applicable cell of type(6) x holder(6 + literal) x state(2) x construct(%d) x "
-                "position(%d) x depth(3) x form(2); the %d positions of a cell group run as one program (own names per "
-                "position) when the model predicts no failure, and as one program each when it predicts a failure or "
-                "the batch disagrees%s; a cell is non-trivial when its program was accepted by the compiler and "
+                "position(%d) x depth(4) x form(2); the %d positions of a cell group run as one program (own names per "
+                "position) when the model predicts no failure, and as one program each when it predicts a failure, the "
+                "batch disagrees, or the depth is `escaped` (one returned closure per program)%s; a cell is non-trivial when its program was accepted by the compiler and "
                 "compared with the model (distinct = distinct cells / random seeds); evaluations = executions of the "
                 "binary compared line by line (and failure position) with the model."
                 % (len(CONSTRUCTS), len(POSITIONS), len(POSITIONS),
